@@ -28,13 +28,19 @@ struct Op
     std::vector<long long> a;
     std::vector<unsigned char> bytes;
     bool has_bytes = false;
+    std::vector<std::string> s; // string arguments, written as @text (no spaces)
+    const std::string& sarg(std::size_t i) const
+    {
+        static const std::string empty;
+        return i < s.size() ? s[i] : empty;
+    }
 
     long long arg(std::size_t i, long long dflt = 0) const { return i < a.size() ? a[i] : dflt; }
     unsigned long long uarg(std::size_t i, unsigned long long dflt = 0) const
     {
         return i < a.size() ? static_cast<unsigned long long>(a[i]) : dflt;
     }
-    bool operator==(const Op& o) const { return name == o.name && a == o.a && bytes == o.bytes && has_bytes == o.has_bytes; }
+    bool operator==(const Op& o) const { return name == o.name && a == o.a && bytes == o.bytes && has_bytes == o.has_bytes && s == o.s; }
 };
 
 inline std::string hex(const std::vector<unsigned char>& b)
@@ -60,6 +66,7 @@ inline std::vector<unsigned char> unhex(const std::string& s)
 inline std::string op_text(const Op& o)
 {
     std::string s = o.name;
+    for(auto& t : o.s) s += " @" + t;
     for(auto v : o.a)
     {
         // unsigned values above LLONG_MAX are printed as negative; parsing is symmetric
@@ -123,7 +130,9 @@ struct Plan
                 std::string t;
                 while(ls >> t)
                 {
-                    if(t[0] == 'x')
+                    if(t[0] == '@')
+                        o.s.push_back(t.substr(1));
+                    else if(t[0] == 'x')
                     {
                         o.has_bytes = true;
                         o.bytes = unhex(t.substr(1));
@@ -182,6 +191,61 @@ inline Stats& stats()
     return s;
 }
 
+// Crash-class outcomes (assert, abort, SIGSEGV, CPU budget) end the process on
+// purpose; before dying the result is delivered according to the mode the
+// process is in.
+struct CrashCtx
+{
+    int mode = 0; // 0 none, 1 run (print V line, exit 98), 2 forked child (pipe), 3 exec (RESULT line, exit 1)
+    int pipe_fd = -1;
+    std::string plan_text, path, prop;
+    std::uint64_t seed = 0;
+    void (*before_report)() = nullptr; // engine hook, e.g. restore a redirected stdout
+};
+inline CrashCtx& crash_ctx()
+{
+    static CrashCtx c;
+    return c;
+}
+inline void print_stats();
+[[noreturn]] inline void crash_report(const std::string& signature, const std::string& detail_in)
+{
+    auto& c = crash_ctx();
+    if(c.before_report) c.before_report();
+    std::string detail = detail_in;
+    std::replace(detail.begin(), detail.end(), '\n', ' ');
+    if(c.mode == 2)
+    {
+        std::string s = "1\n" + signature + "\n0\n" + detail;
+        size_t off = 0;
+        while(off < s.size())
+        {
+            ssize_t w = ::write(c.pipe_fd, s.data() + off, s.size() - off);
+            if(w <= 0) break;
+            off += (size_t)w;
+        }
+        _exit(0);
+    }
+    if(c.mode == 1)
+    {
+        FILE* f = fopen(c.path.c_str(), "w");
+        if(f)
+        {
+            fprintf(f, "%sseed %" PRIu64 "\nexpect %s\n", c.plan_text.c_str(), c.seed, signature.c_str());
+            fclose(f);
+        }
+        printf("V %" PRIu64 " %016" PRIx64 " %s %s | %s\n", c.seed, (std::uint64_t)0, c.path.c_str(), signature.c_str(), detail.c_str());
+        print_stats();
+        printf("RESTART\n");
+        fflush(stdout);
+        _exit(98);
+    }
+    printf("RESULT violation=1 fingerprint=%016" PRIx64 " signature=%s\n", (std::uint64_t)0, signature.c_str());
+    printf("DETAIL %s\n", detail.c_str());
+    fflush(stdout);
+    _exit(1);
+}
+
 struct Engine
 {
     std::function<Plan(std::uint64_t seed, const std::string& prop, const std::string& tier)> gen;
@@ -203,6 +267,8 @@ inline Result exec_forked(const Engine& e, const Plan& p)
     if(pid == 0)
     {
         close(fd[0]);
+        crash_ctx().mode = 2;
+        crash_ctx().pipe_fd = fd[1];
         Result r = e.exec(p);
         std::string s = std::string(r.violation ? "1" : "0") + "\n" + r.signature + "\n" + std::to_string(r.fingerprint) + "\n" + r.detail;
         size_t off = 0;
@@ -379,6 +445,14 @@ inline int worker_main(int argc, char** argv, const Engine& e)
             printf("START %" PRIu64 "\n", seed);
             fflush(stdout);
             Plan p = e.gen(seed, prop, tier);
+            {
+                auto& cc = crash_ctx();
+                cc.mode = 1;
+                cc.seed = seed;
+                cc.prop = prop;
+                cc.plan_text = p.text();
+                cc.path = outdir + "/viol-" + prop + "-" + std::to_string(seed) + ".plan";
+            }
             Result r = e.exec(p);
             if((int)stats().samples.size() < want_samples && k % 97 == 0)
             {
@@ -410,6 +484,7 @@ inline int worker_main(int argc, char** argv, const Engine& e)
     if(mode == "exec" && pos.size() >= 2)
     {
         Plan p = Plan::load(pos[1]);
+        crash_ctx().mode = 3;
         Result r = e.exec(p);
         for(auto& kf : r.known) printf("K 0 %s\n", kf.c_str());
         printf("RESULT violation=%d fingerprint=%016" PRIx64 " signature=%s\n", r.violation ? 1 : 0, r.fingerprint, r.signature.c_str());
